@@ -78,14 +78,24 @@ func verifH_C16_G2_eventstore() {
 			st.getAll("x")
 		case 5:
 			st.off("x")
+		case 6:
+			// misuse: something that is not a function is named for removal. The call panics (reflect refuses it) - the
+			// application recovers, as the library does around handlers - but the store must survive that
+			func() {
+				defer func() { _ = recover() }()
+				st.off("x", reflect.ValueOf(42))
+			}()
 		}
 	}
-	a, b := verifChoose(0, 5), verifChoose(0, 5)
+	a, b := verifChoose(0, 6), verifChoose(0, 6)
 	verifThreads(true)
 	verifGo(func() { op(a) })
 	verifGo(func() { op(b) })
 	verifWaitQuiescent()
 	verifQuiet("eventHandlerStore")
+	// the store is still usable
+	st.on("y", verifEH(3))
+	verifAssert(len(st.getAll("y")) == 1, "the store keeps working after every pair of operations, a refused one included")
 	verifReach("end")
 }
 
